@@ -14,7 +14,7 @@ From Coq Require Import Reals ZArith List Bool String.
 From PyLib Require Import PyVal PyBuiltins Ideal Sphere.
 From Spec Require Import AngleSpec Precession.
 From Gen Require Import M_base M_Angle M_Epoch M_Coordinates.
-From Proofs.C06 Require Import C06_angle C06_equ C06_main.
+From Proofs.C06 Require Import C06_angle C06_jde C06_equ C06_aux C06_orb C06_main.
 Import ListNotations.
 Open Scope R_scope.
 
@@ -134,6 +134,41 @@ Theorem C06_obliquity : forall j,
     /\ cong360 e (eps0_deg + obl_as ((j - J2000) / 3652500) / 3600).
 Proof. exact obliquity_thm. Qed.
 
+(* p_motion_equa2eclip: Meeus' proper-motion conversion, exact closed form (cos lat <> 0) *)
+Theorem C06_p_motion_closed_form : forall ma md ra dec lat eps,
+  cos (d2r lat) <> 0 ->
+  let pa := d2r ma in let pd := d2r md in
+  let se := sin (d2r eps) in let ce := cos (d2r eps) in
+  let sa := sin (d2r ra) in let ca := cos (d2r ra) in
+  let sd := sin (d2r dec) in let cd := cos (d2r dec) in
+  let cl := cos (d2r lat) in
+  f_p_motion_equa2eclip Rops (ang ma) (ang md) (ang ra) (ang dec) (ang lat) (ang eps)
+  = VTuple [VFloat ((pd * (se * ca) + pa * cd * (ce * cd + se * sd * sa)) / (cl * cl));
+            VFloat ((pd * (ce * cd + se * sd * sa) - pa * cd * (se * ca)) / cl)].
+Proof. exact pm_equa2eclip_closed. Qed.
+
+(* motion_in_space: position + time * velocity in rectangular coordinates, back to spherical *)
+Theorem C06_motion_in_space_closed_form : forall ra dec dist vel ma md tm,
+  let a := d2r ra in let d := d2r dec in
+  let dr := vel / Rlit 9777920 (-1) in
+  let x := dist * cos d * cos a in let y := dist * cos d * sin a in let z := dist * sin d in
+  let dx := x / dist * dr - z * d2r md * cos a - y * d2r ma in
+  let dy := y / dist * dr - z * d2r md * sin a + x * d2r ma in
+  let dz := z / dist * dr + dist * d2r md * cos d in
+  let xp := x + tm * dx in let yp := y + tm * dy in let zp := z + tm * dz in
+  dist <> 0 -> sqrt (xp * xp + yp * yp) <> 0 ->
+  f_motion_in_space Rops (ang ra) (ang dec) (VFloat dist) (VFloat vel) (ang ma) (ang md) (VFloat tm)
+  = VTuple [ang (red360 (r2d (atan2 yp xp))); ang (red360 (r2d (atan (zp / sqrt (xp * xp + yp * yp)))))].
+Proof. exact motion_in_space_closed. Qed.
+
+(* orbital_equinox2equinox, general branch (inclination >= 1 degree): exact closed form (orb_out in C06_orb.v) *)
+Theorem C06_orbital_closed_form : forall j0 j1 i0 w0 o0, 1 <= i0 ->
+  let T := cen J2000 j0 in let t := cen j0 j1 in
+  let o := orb_out (eta_as T t) (pi_as T t) (p_as T t) i0 w0 o0 in
+  f_orbital_equinox2equinox Rops (ep j0) (ep j1) (ang i0) (ang w0) (ang o0)
+  = VTuple [ang (fst (fst o)); ang (snd (fst o)); ang (snd o)].
+Proof. exact (fun j0 j1 i0 w0 o0 => orb_closed J2000 j0 j1 i0 w0 o0 jde2000_eq). Qed.
+
 Redirect "C06_equ_closed_form.assumptions" Print Assumptions C06_equ_closed_form.
 Redirect "C06_equ_rotation.assumptions" Print Assumptions C06_equ_rotation.
 Redirect "C06_equ_identity.assumptions" Print Assumptions C06_equ_identity.
@@ -147,3 +182,6 @@ Redirect "C06_newcomb_closed_form.assumptions" Print Assumptions C06_newcomb_clo
 Redirect "C06_newcomb_rotation.assumptions" Print Assumptions C06_newcomb_rotation.
 Redirect "C06_newcomb_identity.assumptions" Print Assumptions C06_newcomb_identity.
 Redirect "C06_obliquity.assumptions" Print Assumptions C06_obliquity.
+Redirect "C06_p_motion_closed_form.assumptions" Print Assumptions C06_p_motion_closed_form.
+Redirect "C06_motion_in_space_closed_form.assumptions" Print Assumptions C06_motion_in_space_closed_form.
+Redirect "C06_orbital_closed_form.assumptions" Print Assumptions C06_orbital_closed_form.
